@@ -5,13 +5,15 @@
 (* through lexer + lossless parser.  Serves C09 and the relation part of    *)
 (* C02.  One REPLAY line per (input, allow).                                *)
 EXTENDS Rel, Json
-CONSTANTS N, M, M2, M3
+CONSTANTS N, M, M2, M3, M4
 Deep == {"I", "(", "[", "<", "!", "W", "$", "{", ":"}
 \* ... and up to length M2 over the alphabet of COMPLETE groups (openers with their closers and the two separators),
 \* which reaches the recovery arms entered after a closed group
 Closed == {"I", "(", ")", "[", "]", "<", ">", ",", "|"}
 \* ... and up to length M3 over the alphabet of substitution variables
 Subst == {"$", "{", "}", "I", "W", ":"}
+\* ... and up to length M4 over the alphabet of version constraints
+Vers == {"I", "(", ")", ":", "=", "W"}
 MCInit ==
   \/ \E n \in 0..N : \E s \in [1..n -> RelClass] : \E a \in BOOLEAN :
         InitWith([text |-> s, toks |-> Lex(s), allow |-> a])
@@ -20,6 +22,8 @@ MCInit ==
   \/ \E n \in (N+1)..M2 : \E s \in [1..n -> Closed] : \E a \in BOOLEAN :
         InitWith([text |-> s, toks |-> Lex(s), allow |-> a])
   \/ \E n \in (N+1)..M3 : \E s \in [1..n -> Subst] : \E a \in BOOLEAN :
+        InitWith([text |-> s, toks |-> Lex(s), allow |-> a])
+  \/ \E n \in (N+1)..M4 : \E s \in [1..n -> Vers] : \E a \in BOOLEAN :
         InitWith([text |-> s, toks |-> Lex(s), allow |-> a])
 Emit == Done => PrintT(<<"REPLAY", ToJson([
            i |-> case.text, a |-> case.allow,
